@@ -255,6 +255,16 @@ func (fv *FuncVer) run(st *State) {
 	}
 }
 
+// endsInPanic: the block is the body of an `if ... { panic(...) }` (no way back into a loop, and
+// not a break out of it either).
+func endsInPanic(b *ssa.BasicBlock) bool {
+	if n := len(b.Instrs); n > 0 {
+		_, ok := b.Instrs[n-1].(*ssa.Panic)
+		return ok
+	}
+	return false
+}
+
 // jump moves the top frame to block b, handling loop headers. Returns false if the path ends.
 func (fv *FuncVer) jump(st *State, b *ssa.BasicBlock) bool {
 	f := st.top()
@@ -268,6 +278,10 @@ func (fv *FuncVer) jump(st *State, b *ssa.BasicBlock) bool {
 		li := la.byHeader[al.header]
 		if b == al.header || li.body[b] {
 			break
+		}
+		if al.spec != nil && al.spec.Exhaustive && f.block != al.header && !endsInPanic(b) {
+			// an edge out of the loop that does not start at its head: break / goto
+			fv.oblige(st, "exhaustive", al.key, token.NoPos, False, fmt.Sprintf("loop %q is left only when its range is exhausted (no break reachable)", al.key))
 		}
 		st.loops = st.loops[:len(st.loops)-1]
 	}
@@ -319,6 +333,10 @@ func (fv *FuncVer) jump(st *State, b *ssa.BasicBlock) bool {
 	fv.assumeRangeBounds(st, f, li)
 	fv.assumeInvariants(st, spec, f)
 	fv.loopEntry = nil
+	if spec != nil && spec.Exhaustive {
+		// registers the obligation name on every run; the edges that would violate it add the goals
+		fv.oblige(st, "exhaustive", key, token.NoPos, True, fmt.Sprintf("loop %q is left only when its range is exhausted (no break reachable)", key))
+	}
 	if spec != nil && len(st.frames) == 1 {
 		// vacuity guard: the invariants (with everything assumed before) admit a state at the loop head
 		fv.addCover(st, "loop:"+key, "the loop head is reachable under the invariants")
